@@ -64,6 +64,24 @@ def mk_op(o):
     return op
 
 
+def apply_hist(q, hist):
+    """apply abstract operations inside an open program context; returns {mode label: RegRef}"""
+    from strawberryfields import ops
+    regs = {r.ind: r for r in q}
+    for o in hist:
+        if o["name"] == "Del":
+            ops.Del | tuple(regs[m] for m in o["modes"])
+            for m in o["modes"]:
+                del regs[m]
+        elif o["name"] == "New":
+            new = ops.New(len(o["modes"]))
+            for m, r in zip(o["modes"], new):
+                regs[m] = r
+        else:
+            mk_op(o) | tuple(regs[m] for m in o["modes"])
+    return regs
+
+
 def build_program(n, hist, name=None):
     import strawberryfields as sf
     from strawberryfields import ops
